@@ -150,7 +150,19 @@ func (p *proxyConn) handleMITM(req *http.Request) error {
 	// Successful CONNECT response does not invoke trace.
 	p.traceWroteResponse(res, nil)
 
+	// The client has to start the handshake within the handshake timeout,
+	// otherwise a CONNECT that is never followed by anything stays open forever.
+	if p.MITMTLSHandshakeTimeout > 0 {
+		if deadlineErr := p.conn.SetReadDeadline(time.Now().Add(p.MITMTLSHandshakeTimeout)); deadlineErr != nil {
+			log.Error(ctx, "can't set mitm handshake deadline", "error", deadlineErr)
+		}
+	}
 	b, err := p.brw.Peek(1)
+	if p.MITMTLSHandshakeTimeout > 0 {
+		if deadlineErr := p.conn.SetReadDeadline(time.Time{}); deadlineErr != nil {
+			log.Error(ctx, "can't clear mitm handshake deadline", "error", deadlineErr)
+		}
+	}
 	if err != nil {
 		if isClosedConnError(err) {
 			log.Debug(ctx, "mitm: connection closed prematurely", "error", err)
